@@ -78,8 +78,10 @@ def make_traj(rng, d, N, frames, thorough=False, poskind=None, independent_frame
             f = gc.make_frac(rng, d, N, poskind)          # every frame keeps the minimum distance of its generator
         else:
             f = (f0 + (rng.normal(0, 0.05, f0.shape) if t else 0.0)) % 1.0
-        pos = lo + f * L
-        snaps.append(SingleSnapshot(timestep=100 * t, nparticle=N, particle_type=np.ones(N, dtype=int), positions=pos,
+        lay = gc.auto_layout(N, np.ones(N, dtype=int), d)
+        gc.LAYOUT_COUNTS[lay] = gc.LAYOUT_COUNTS.get(lay, 0) + 1
+        pos = gc.lay_out(lo + f * L, lay, "positions")
+        snaps.append(SingleSnapshot(timestep=100 * t, nparticle=N, particle_type=gc.lay_out(np.ones(N, dtype=int), lay, "types"), positions=pos,
                                     boxlength=L.copy(), boxbounds=np.column_stack([lo, lo + L]), realbounds=None, hmatrix=np.diag(L)))
     return Snapshots(nsnapshots=frames, snapshots=snaps), {"d": d, "N": N, "origin": okind, "frames": frames,
                                                             "vary_box": bool(vary_box), "pos": poskind}
